@@ -4,7 +4,8 @@ import vf
 
 PROP = "C06"
 THEOREMS = ["reach_bfs_sound_complete", "root_layout_free", "root_layout_free_sem", "root_injective_refuted",
-            "root_injective_same_skeleton_partial", "root_single_mutation_partial", "root_preimage_is_content_encoding"]
+            "root_injective_same_skeleton_partial", "root_single_mutation_partial", "root_preimage_is_content_encoding",
+            "acc_agrees", "acc_agrees_any_representation_partial"]
 PRE = ("From Coq Require Import List NArith.\nFrom Echo Require Import Base.FinMap Base.Order Base.Bytes Model.Root.\n"
        "Import ListNotations.\nOpen Scope N_scope.\n")
 M256 = (1 << 256) - 1
@@ -226,7 +227,8 @@ def render_model(vals, hs):
         if not ok:
             plan["base"] = None
         else:
-            dang, par, (pre, (apre, (canon, sk))) = p
+            dang, par, wf, (pre, (apre, (canon, sk))) = p
+            plan["wf"] = [wf]
             plan["base"] = (dang, par, hs.add(pre), hs.add(apre), hs.add(canon), sk_s(sk), pre, apre)
         ok2, p2 = opt(o2)
         if ok2:
@@ -234,7 +236,8 @@ def render_model(vals, hs):
             if not okk:
                 plan["t"] = None
             else:
-                dang, par, (pre, (apre, (canon, sk))) = q
+                dang, par, wf, (pre, (apre, (canon, sk))) = q
+                plan["wf"] = plan.get("wf", []) + [wf]
                 plan["t"] = (dang, par, hs.add(pre), hs.add(canon), sk_s(sk))
         ok3, p3 = opt(o3)
         if ok3:
@@ -247,7 +250,8 @@ def render_model(vals, hs):
                 if not bok:
                     plan["ops"] = ("noroot",)
                 else:
-                    dang, par, (pre, (oa, canon)) = b
+                    dang, par, wf, (pre, (oa, canon)) = b
+                    plan["wf"] = plan.get("wf", []) + [wf]
                     aok, apre = opt(oa)
                     plan["ops"] = ("ok", dang, par, hs.add(pre), hs.add(apre) if aok else None, hs.add(canon), pre, apre)
         plans.append(plan)
@@ -271,7 +275,7 @@ def finish_model(plans, hs):
         ln = "root=%s acc=%s content=%s sk=%s" % (rootstr(dang, par, H[i_r]), H[i_a], H[i_c], sk)
         inf["acc_is_root_minus_prefix"] = (pre[19:] == apre)
         inf["acc_equals_root"] = (pre == apre)
-        inf["both"] = True
+        inf["wf"] = p.get("wf", [])
         if "t" in p:
             if p["t"] is None:
                 ln += " root2=err content2=- sk2=-"
@@ -345,7 +349,7 @@ class Gen:
                     self.missing[w].add(n)
             if rng.random() < 0.05:
                 self.missing[w].add(ns[0])                    # root node without record
-            ne = rng.randint(0, 2 * len(ns))
+            ne = 0 if rng.random() < 0.25 else rng.randint(0, 2 * len(ns))   # edge-free instances: every node isolated
             eids = distinct(rng, ne)
             for eid in eids:
                 self.edges[w].append((eid, rng.choice(ns), rng.choice(ns), rng.choice(self.types)))
@@ -427,51 +431,133 @@ class Gen:
         return out
 
     def wops(self, k, valid_bias=0.8):
+        """Op sequence for apply_ops_to_state / SnapshotAccumulator::apply_ops.  With probability
+        `valid_bias` every op is chosen to be accepted by the store (so the roots get compared);
+        otherwise ops are a mix of valid and invalid ones (error paths)."""
         rng, out = self.rng, []
+        allgood = rng.random() < valid_bias
         live_edges = {w: list(self.edges[w]) for w in self.warps}
+        natt, eatt = dict(self.natt), dict(self.eatt)
+        gone_nodes = {w: set(self.missing[w]) for w in self.warps}
+        children = {p[2] for p in self.parent.values() if p}
+        def is_portal(v):
+            return v is not None and v[0] == "d"
         for _ in range(k):
-            good = rng.random() < valid_bias
+            good = allgood or rng.random() < 0.5
             w = rng.choice(self.warps) if good else rng.choice(self.warps + [rid(rng)])
             ns = self.nodes.get(w) or [rid(rng)]
-            real = [n for n in ns if n not in self.missing.get(w, set())] or ns
+            real = [n for n in ns if n not in gone_nodes.get(w, set())] or ns
+            es = live_edges.get(w) or []
             c = rng.random()
-            if c < 0.2:
-                out.append(("UN", w, rng.choice(ns + [rid(rng)]), rng.choice(self.types)))
-            elif c < 0.4:
-                es = live_edges.get(w) or []
-                eid = rng.choice(es)[0] if es and rng.random() < 0.4 else rid(rng)
-                out.append(("UE", w, eid, rng.choice(ns), rng.choice(ns), rng.choice(self.types)))
-            elif c < 0.55:
-                es = live_edges.get(w) or []
-                if es:
+            if c < 0.14:
+                # delete + re-create under the same id: the attachment must not survive on either side
+                att_es = [e for e in es if (w, e[0]) in eatt and not is_portal(eatt[(w, e[0])])]
+                iso = [n for n in real if all(n not in (e[1], e[2]) for e in es)]
+                att_iso = [n for n in iso if (w, n) in natt and not is_portal(natt[(w, n)])] or \
+                          [n for n in iso if not is_portal(natt.get((w, n)))]
+                if att_es and (rng.random() < 0.5 or not att_iso):
+                    e = rng.choice(att_es)
+                    out += [("DE", w, e[1], e[0]), ("UE", w, e[0], e[1], e[2], rng.choice(self.types))]
+                    eatt.pop((w, e[0]), None)
+                elif att_iso:
+                    n = rng.choice(att_iso)
+                    out += [("DN", w, n), ("UN", w, n, rng.choice(self.types))]
+                    natt.pop((w, n), None)
+                else:
+                    out.append(("UN", w, rng.choice(ns), rng.choice(self.types)))
+            elif c < 0.28:
+                n = rng.choice(ns + [rid(rng)])
+                out.append(("UN", w, n, rng.choice(self.types)))
+                gone_nodes.get(w, set()).discard(n)
+            elif c < 0.45:
+                if es and rng.random() < 0.4:
                     e = rng.choice(es)
+                    es.remove(e)
+                    eid = e[0]
+                else:
+                    eid = rid(rng)
+                ne = (eid, rng.choice(ns), rng.choice(ns), rng.choice(self.types))
+                out.append(("UE", w) + ne)
+                if w in live_edges:
+                    live_edges[w].append(ne)
+            elif c < 0.58:
+                cand = [e for e in es if not is_portal(eatt.get((w, e[0])))] if good else es
+                if cand:
+                    e = rng.choice(cand)
                     out.append(("DE", w, e[1] if good else rng.choice(ns), e[0]))
                     if good:
                         es.remove(e)
+                        eatt.pop((w, e[0]), None)
                 else:
-                    out.append(("DE", w, rng.choice(ns), rid(rng)))
-            elif c < 0.65:
-                out.append(("DN", w, rng.choice(ns)))
-            elif c < 0.8:
-                if rng.random() < 0.6 or not live_edges.get(w):
-                    key = (1, 1 if good else rng.choice([1, 2]), w, rng.choice(real if good else ns))
+                    out.append(("DE", w, rng.choice(ns), rid(rng)) if not good else ("UN", w, rng.choice(ns), rng.choice(self.types)))
+            elif c < 0.66:
+                iso = [n for n in real if all(n not in (e[1], e[2]) for e in es) and not is_portal(natt.get((w, n)))
+                       and n != self.roots.get(w)]
+                if good and iso:
+                    n = rng.choice(iso)
+                    out.append(("DN", w, n))
+                    gone_nodes[w].add(n)
+                    natt.pop((w, n), None)
+                elif good:
+                    out.append(("UN", w, rng.choice(ns), rng.choice(self.types)))
                 else:
-                    key = (2, 2 if good else rng.choice([1, 2]), w, rng.choice(live_edges[w])[0])
-                v = rng.choice([None, ratom(rng, self.types), ratom(rng, self.types), ("d", rng.choice(self.warps))])
+                    out.append(("DN", w, rng.choice(ns)))
+            elif c < 0.82:
+                if good:
+                    slots = [(1, 1, w, n) for n in real if not is_portal(natt.get((w, n)))] + \
+                            [(2, 2, w, e[0]) for e in es if not is_portal(eatt.get((w, e[0])))]
+                    if not slots:
+                        out.append(("UN", w, rng.choice(ns), rng.choice(self.types)))
+                        continue
+                    key = rng.choice(slots)
+                    v = rng.choice([None, ratom(rng, self.types), ratom(rng, self.types)])
+                    (natt if key[0] == 1 else eatt)[(w, key[3])] = v
+                    if v is None:
+                        (natt if key[0] == 1 else eatt).pop((w, key[3]), None)
+                else:
+                    if rng.random() < 0.6 or not es:
+                        key = (1, rng.choice([1, 2]), w, rng.choice(ns))
+                    else:
+                        key = (2, rng.choice([1, 2]), w, rng.choice(es)[0])
+                    v = rng.choice([None, ratom(rng, self.types), ("d", rng.choice(self.warps)), ("d", rid(rng))])
                 out.append(("SA", key, v))
-            elif c < 0.9:
-                key = (1, 1, w, rng.choice(real))
-                cw = rid(rng) if rng.random() < 0.7 else rng.choice(self.warps)
-                out.append(("OP", key, cw, rid(rng) if cw not in self.roots else self.roots[cw],
-                            rng.choice(self.types) if rng.random() < 0.8 else None))
-            elif c < 0.95:
-                cw = rng.choice(self.warps[1:] or [rid(rng)])
-                out.append(("DI", cw))
-                p = self.parent.get(cw)
-                if p and good:
-                    out.append(("SA", p, None))
+            elif c < 0.92:
+                slots = [n for n in real if not is_portal(natt.get((w, n)))]
+                if good and slots:
+                    n = rng.choice(slots)
+                    cw = rid(rng)
+                    out.append(("OP", (1, 1, w, n), cw, rid(rng), rng.choice(self.types)))
+                    natt[(w, n)] = ("d", cw)
+                elif good:
+                    out.append(("UN", w, rng.choice(ns), rng.choice(self.types)))
+                else:
+                    key = (1, 1, w, rng.choice(ns))
+                    cw = rid(rng) if rng.random() < 0.5 else rng.choice(self.warps)
+                    out.append(("OP", key, cw, rid(rng) if cw not in self.roots else self.roots[cw],
+                                rng.choice(self.types) if rng.random() < 0.7 else None))
+            elif c < 0.96:
+                leaves = [cw for cw in self.warps[1:] if cw not in children and self.parent.get(cw)]
+                if good and leaves:
+                    cw = rng.choice(leaves)
+                    p = self.parent[cw]
+                    slotmap = natt if p[0] == 1 else eatt
+                    if p[0] in (1, 2) and p[0] == p[1] and slotmap.get((p[2], p[3])) == ("d", cw):
+                        out += [("SA", p, None), ("DI", cw)]
+                        slotmap.pop((p[2], p[3]), None)
+                        self_w = cw
+                        live_edges.pop(self_w, None)
+                    else:
+                        out.append(("UN", w, rng.choice(ns), rng.choice(self.types)))
+                elif good:
+                    out.append(("UN", w, rng.choice(ns), rng.choice(self.types)))
+                else:
+                    out.append(("DI", rng.choice(self.warps[1:] or [rid(rng)])))
             else:
-                out.append(("UI", rng.choice(self.warps + [rid(rng)]), rng.choice(ns), rng.choice([None, (1, 1, w, rng.choice(ns))])))
+                if good:
+                    out.append(("UI", w, rng.choice(real), self.parent.get(w)))     # move an instance's root node
+                else:
+                    out.append(("UI", rng.choice(self.warps + [rid(rng)]), rng.choice(ns), rng.choice([None, (1, 1, w, rng.choice(ns))])))
+        # ops addressed to an instance deleted earlier in the same sequence are invalid by construction
         return out
 
 
@@ -640,8 +726,13 @@ def run(tier, seed, replay=None):
         if " res=" in m:
             k = m.split(" res=")[1].split()[0]
             r.cov["res_histogram"][k] = r.cov["res_histogram"].get(k, 0) + 1
-    r.cov["model_says_acc_preimage_is_root_preimage_minus_prefix"] = sum(1 for x in info if x.get("acc_is_root_minus_prefix"))
     r.cov["model_says_acc_preimage_equals_root_preimage"] = sum(1 for x in info if x.get("acc_equals_root"))
+    wfs = [w for x in info for w in x.get("wf", [])]
+    r.cov["wf_state_evaluated_on_generated_states"] = {"states": len(wfs), "well_formed": sum(wfs)}
+    if wfs and sum(wfs) != len(wfs):
+        # the hypothesis of the layout / agreement theorems fails on an API-built state: the theorems stop applying
+        i = next(i for i, x in enumerate(info) if 0 in x.get("wf", []))
+        r.is_broken("wf_state-false-on-api-built-state", cases[i])
     r.cov["traces_validated_against_impl"] = len(cases) - len(bad)
     r.cov["samples"] = cases[:3]
     r.phase("P4_correspondence", cases=len(cases), differing=len(bad))
